@@ -678,7 +678,12 @@ func (s *rtSession) step(st RTStep, idx int) (stop, nontrivial bool, desc string
 	if !repeatOK {
 		rec.Class("repeat=skipped(low-entropy-mask)")
 	}
+	// (sk: c0 = -a*s + e + pt repeats when s = 0 and the two errors coincide)
+	c0OK := c.Kind != "sk" || !s.sStat.zero || collisionBits(c.Spec.Xe, n) >= 50
 	for i := 0; repeatOK && i <= 1 && i <= full.Degree(); i++ {
+		if i == 0 && !c0OK {
+			continue
+		}
 		if ringQ.Equal(full.Value[i], full2.Value[i]) {
 			return fail(h.Failf(kbase+":repeat:component-equal", "two encryptions of the same plaintext have the same c%d", i))
 		}
